@@ -248,9 +248,10 @@ impl Link {
             self.pending_reply[me] = None;
             return;
         }
-        if d.inflight.len() + d.delivered.len() >= d.capacity {
-            return; // stays pending (a real socket would block)
-        }
+        // tungstenite puts an owed Pong / Close into its (by default unbounded) write buffer with
+        // the very next operation, behind whatever that operation buffered: it may wait there for
+        // the socket, but it can never be overtaken for ever by later data. The reply therefore
+        // does not count against the capacity that models back-pressure on data.
         let m = self.pending_reply[me].take().unwrap();
         if matches!(m, Message::Close) {
             self.d[me].sink_closed = true;
